@@ -21,7 +21,7 @@ CHECKS = {
     "C06": {
         "engine": "E1-verus",
         "category": "proof",
-        "text": "Verus proves (unbounded, all element types and callbacks) that the permutation kernel used by Hash N-Degree Quads terminates, only ever hands permutations of its input to the callback and leaves a permutation behind; Kani shows it enumerates exactly n! distinct arrangements for n = 4, 5 (6 in the thorough tier). The composition of RDFC-1.0 (steps 2-6, the three hash procedures, the issuer, the sorted canonical N-Quads) is outside both verifiers and is compared, as a labelled bounded native stand-in, byte for byte with an independent transcription of the W3C algorithm on 68 872 small and symmetric datasets under SHA-256 and SHA-384.",
+        "text": "Verus proves (unbounded, all element types and callbacks) that the permutation kernel used by Hash N-Degree Quads terminates, only ever hands permutations of its input to the callback and leaves a permutation behind; Kani shows it enumerates exactly n! distinct arrangements for n = 4, 5 (6 in the thorough tier). The composition of RDFC-1.0 (steps 2-6, the three hash procedures, the issuer, the sorted canonical N-Quads) is outside both verifiers and is compared, as a labelled bounded native stand-in, byte for byte with an independent transcription of the W3C algorithm on 68 896 small and symmetric datasets under SHA-256 and SHA-384.",
         "design_ref": "DESIGN.md 5 (C06)",
         "note": "Trusted: Verus/z3, assumed spec of <[T]>::swap, vstd multiset lemmas. The reference transcription (replay_src/c06/src/oracle.rs) is trusted as a reading of the W3C text. NOT proved: steps 2-6 of the canonicalisation algorithm, Hash N-Degree Quads, issuer (bounded differential check only); NOT covered: canonical N-Quads escaping of literals, non-default limits, datasets beyond the enumerated shapes.",
         "technique": "deductive verification (Verus requires/ensures/decreases, loop invariant, FnMut call obligations) of mechanically extracted code",
